@@ -23,7 +23,7 @@ def generate(rng, tier):
     out = []
     n = 1500 if tier == "thorough" else 220
     for i in range(n):
-        blk, durs = traj_block(rng)
+        blk, durs = traj_block(rng, allow_zero=(i % 5 == 0))   # zero-duration segments: their own instants are not probed
         ts = probe_times(rng, durs)
         mode = "bo"[i % 2]
         # fresh player per query = one case per time (history of length one)
